@@ -138,6 +138,7 @@ def run_job(job, dbdir):
 
     dawgie.db.util.subprocess = e2e_h._STUB_SUBPROCESS
     e2e_h.E2EWorld.save_twice = int(job['id']) % 2 == 1
+    e2e_h.E2EWorld.new_style = (int(job['id']) // 2) % 2 == 1
     w = ProtoWorld(job['desc'], job['targets'], dbdir)
     # novelty flags as the pipeline received them: wrap schedule.update's input
     import dawgie.pl.schedule as schedule
